@@ -5,7 +5,7 @@
    goroutines are all inputs, so "forall ins" is "for every coordinator script, handler behaviour and schedule",
    over any number of successive Consume calls.  The acceptors [hook_ok] / [identity_ok] are in C07/Spec.v. *)
 From Coq Require Import List ZArith String.
-From SV Require Import C07.Model C07.Spec C07.Corr C07.ProofsHook C07.ProofsId C07.ProofsOffsets C07.ProofsEnds C07.ProofsCorr.
+From SV Require Import C07.Model C07.Spec C07.Corr C07.ProofsHook C07.ProofsId C07.ProofsOffsets C07.ProofsEnds C07.ProofsCorr C07.ProofsJoin.
 From SV Require Import Gen.GoInt Gen.DecTypes Gen.DecC07.
 Import ListNotations.
 Open Scope Z_scope.
@@ -67,6 +67,15 @@ Theorem c07_no_skip : forall cf store log p, wf0 cf store log p -> forall ins c 
   store_get (w_store w) p = Some c -> base store log p <= o < c -> In (EvDeliver p o) tr.
 Proof. exact no_skip_holds. Qed.
 Print Assumptions c07_no_skip.
+
+(* Joining is bounded by the coordinator's fencing: over any run, the number of JoinGroup requests is at most the number
+   of UnknownMemberId / IllegalGeneration answers plus (Rebalance.Retry.Max + 1) per Consume call.  (A coordinator that
+   fences for ever keeps newSession joining for ever: C07/Examples.v fencing_forever — the re-join uses up no retry.) *)
+Theorem c07_join_bound : forall cf store log ins,
+  let c := count (trace cf (init_world store log) ins) in
+  n_join c <= n_fenced c + (Z.max (c_retries cf) 0 + 1) * n_call c.
+Proof. exact join_bound_holds. Qed.
+Print Assumptions c07_join_bound.
 
 (* The correspondence check evaluates exactly [Model.run]. *)
 Theorem c07_corr_runs_model : forall cf lv0 c w, let '(ins, w', tr) := run_call cf lv0 c w in run cf w ins = (w', tr).
